@@ -9,5 +9,6 @@ git -C /repo worktree add -q --detach $wt HEAD || exit 9
 if ! git -C $wt apply --check "$d/patch.diff" 2>/dev/null; then echo "PATCH DOES NOT APPLY: $d"; git -C /repo worktree remove --force $wt; exit 8; fi
 git -C $wt apply "$d/patch.diff"
 if [ -f "$d/demo.py" ]; then (cd $wt && PYTHONPATH=$wt timeout 300 /venv/bin/python "$d/demo.py" >/dev/null 2>&1; echo "demo exit with change: $?"); fi
-cd /verif && VERIF_REPO=$wt VERIF_WORKERS=${VERIF_WORKERS:-16} timeout 1200 /venv/bin/python run_check.py $prop --tier quick 2>&1 | grep -E "VIOLATION|violation run|detail|exit|HARNESS" | cut -c1-400
+mkdir -p /tmp/sv/out_$$; cd /verif && VERIF_EVIDENCE_DIR=/tmp/sv/out_$$ VERIF_REPLAY_DIR=/tmp/sv/out_$$ VERIF_REPO=$wt VERIF_WORKERS=${VERIF_WORKERS:-16} timeout 1200 /venv/bin/python run_check.py $prop --tier quick 2>&1 | grep -E "VIOLATION|violation run|detail|exit|HARNESS" | cut -c1-400
 git -C /repo worktree remove --force $wt
+rm -rf /tmp/sv/out_$$
